@@ -652,6 +652,55 @@ func CheckC12(c *Ctx) {
 					return true
 				})
 				startOK = startThen != nil && startThen == startElse
+				// when LastDate fails the asset is new to the target, whatever the error says: EVERY
+				// path of the failure branch takes the default start date, none skips the asset or
+				// records a failure (repositories report a missing asset with errors of their own)
+				var allDefault func(n ast.Node) bool
+				allDefault = func(n ast.Node) bool {
+					switch x := n.(type) {
+					case *ast.BlockStmt:
+						assigned := false
+						for _, st := range x.List {
+							switch y := st.(type) {
+							case *ast.AssignStmt:
+								if len(y.Lhs) == 1 && len(y.Rhs) == 1 {
+									if l, ok := y.Lhs[0].(*ast.Ident); ok && info.ObjectOf(l) == startElse {
+										if r, ok := y.Rhs[0].(*ast.Ident); ok {
+											if v, ok := info.Uses[r].(*types.Var); ok && (types.Object(v) == defaultObj || (procIf == nil && isParamOf(fi, v))) {
+												assigned = true
+											}
+										}
+									}
+								}
+							case *ast.IfStmt:
+								if y.Else == nil {
+									if !assigned && !allDefault(y.Body) {
+										return false
+									}
+									if containsBranchOrReturn(y.Body) {
+										return false
+									}
+								} else if allDefault(y.Body) && allDefault(y.Else) {
+									assigned = true
+								} else if !assigned {
+									return false
+								}
+							case *ast.BranchStmt, *ast.ReturnStmt:
+								return false
+							}
+						}
+						return assigned
+					case *ast.IfStmt:
+						if x.Else == nil {
+							return false
+						}
+						return allDefault(x.Body) && allDefault(x.Else)
+					}
+					return false
+				}
+				if startOK && !allDefault(failBranch) {
+					startOK = false
+				}
 				if startOK {
 					startObj = startThen
 				}
@@ -892,6 +941,70 @@ func CheckC13(c *Ctx) {
 	run.Oblige(orderOK)
 	if !orderOK {
 		c.violate("backtest/protocol", site+".Run", "Begin<workers<Wait<End", runFi.Decl.Pos(), "Run no longer calls report.Begin before starting the workers and report.End after waiting for all of them")
+	}
+	// one stream of asset names, created before the workers start and shared by all of them: a
+	// stream made inside the loop gives every worker the whole list
+	{
+		var goStmt *ast.GoStmt
+		var loopOfGo ast.Node
+		var stack []ast.Node
+		ast.Inspect(runFi.Decl.Body, func(n ast.Node) bool {
+			if n == nil {
+				stack = stack[:len(stack)-1]
+				return true
+			}
+			stack = append(stack, n)
+			if g, ok := n.(*ast.GoStmt); ok {
+				if fn := callee(info, g.Call); fn != nil && fn.Origin() == wFi.Fn.Origin() {
+					goStmt = g
+					for i := len(stack) - 1; i >= 0; i-- {
+						switch stack[i].(type) {
+						case *ast.ForStmt, *ast.RangeStmt:
+							if loopOfGo == nil {
+								loopOfGo = stack[i]
+							}
+						}
+					}
+				}
+			}
+			return true
+		})
+		jobsOK := false
+		why := "the worker is not started with a channel variable"
+		if goStmt != nil {
+			for _, a := range goStmt.Call.Args {
+				t := info.TypeOf(a)
+				if t == nil {
+					continue
+				}
+				if _, isChan := t.Underlying().(*types.Chan); !isChan {
+					continue
+				}
+				id, isID := ast.Unparen(a).(*ast.Ident)
+				if !isID {
+					why = "the channel of asset names is created in the go statement itself (" + short(exprString(a), 50) + "): every worker gets a stream of its own with all the names"
+					continue
+				}
+				obj := info.ObjectOf(id)
+				def, single := singleDefs(info, runFi.Decl.Body)[obj]
+				switch {
+				case !single:
+					why = "the channel variable " + id.Name + " is assigned more than once"
+				case loopOfGo != nil && obj.Pos() >= loopOfGo.Pos() && obj.Pos() < loopOfGo.End():
+					why = "the channel " + id.Name + " is created inside the loop that starts the workers: every worker gets a stream of its own with all the names"
+				default:
+					if call, ok := ast.Unparen(def).(*ast.CallExpr); ok && strings.HasSuffix(calleeName(info, call), "helper.SliceToChan") {
+						jobsOK = true
+					} else {
+						why = "the channel " + id.Name + " is not helper.SliceToChan of the asset names"
+					}
+				}
+			}
+		}
+		run.Oblige(jobsOK)
+		if !jobsOK {
+			c.violate("backtest/jobs", site+".Run", "job channel", runFi.Decl.Pos(), "the workers must share one stream of asset names created before they start: "+why+" (each asset would be backtested once per worker)")
+		}
 	}
 	// worker
 	var assetLoop *ast.RangeStmt
@@ -1799,4 +1912,18 @@ func argInMain(info *types.Info, mainFn, fd *ast.FuncDecl, e ast.Expr) ast.Expr 
 		return true
 	})
 	return arg
+}
+
+func containsBranchOrReturn(n ast.Node) bool {
+	found := false
+	ast.Inspect(n, func(m ast.Node) bool {
+		switch m.(type) {
+		case *ast.FuncLit:
+			return false
+		case *ast.BranchStmt, *ast.ReturnStmt:
+			found = true
+		}
+		return !found
+	})
+	return found
 }
